@@ -111,6 +111,8 @@ fn main() {
     report::install_panic_hook();
     match property.as_str() {
         "C01" => mon::c01::run(&mut ctx),
+        "C09" => mon::c09::run(&mut ctx),
+        "C09CHILD" => mon::c09::child(&mut ctx),
         "C08" => mon::c08::run(&mut ctx),
         "C06" => mon::c06::run(&mut ctx),
         "C07" => mon::c07::run(&mut ctx),
